@@ -14,7 +14,7 @@
 (* MC_Handlers checks that what this machine invokes is exactly what the    *)
 (* scope contract Scope says (C05 at design level).                          *)
 (***************************************************************************)
-EXTENDS Naturals, Sequences, FiniteSets, TLC, Scope
+EXTENDS Naturals, Sequences, FiniteSets, TLC, Json, Scope
 
 CONSTANTS Docs,      \* documents: items "st" | "et" | "tx" | "cm" | "dt"
           HandlerSets \* [elemH : seq of [sel, el, tx, cm, et], docH : seq of [dt, cm, tx, de]];  et = the element handler registers an end-tag handler
@@ -140,5 +140,7 @@ CountsExact ==
      /\ cmc[h] = (IF hs.elemH[h].cm THEN Cardinality({j \in 1..Len(stack) : h \in stack[j].mids}) ELSE 0)
      /\ elc[h] = 0
 \* every locator held by an open element points into the vector, at an inactive entry
+\* every (document, handler set) of the instance, printed once for replay in the real code (job c05)
+Emit == Done => PrintT(<<"REPLAY", ToJson([hdoc |-> doc, hs |-> hs])>>)
 LocatorsValid == \A j \in 1..Len(stack) : stack[j].eth = 0 \/ (stack[j].eth <= Len(ethv) /\ ethv[stack[j].eth].uc = 0)
 =============================================================================
